@@ -3,7 +3,7 @@ CONSTANTS Menu = "C04"
  Layouts = {"siblings", "nested", "root"}
  AllPlants = FALSE
  Lite = TRUE
- Flavours <- Flav_shadow
+ Flavours <- Flav_shadowQ
 INIT HInit
 NEXT HNext
 INVARIANT EmitCase
